@@ -1,6 +1,6 @@
 (* The op discipline ("async with"-style use of task groups) and the state-form of C01 under it. *)
 From AV Require Import Base Machine GroupInv GroupInv2 GroupInv3 GroupInv4 GroupInv5 GroupInv6 GroupInv7 GroupInv8
-  GroupInv9 GroupThms GroupThms2 GroupThms3 GroupThms4 GroupThms5 GroupThms8 GroupThms9.
+  GroupInv9 GroupThms GroupThms2 GroupThms3 GroupThms4 GroupThms5 GroupThms5b GroupThms6 GroupThms8 GroupThms9.
 
 (* ---------------- the discipline ---------------- *)
 Definition real_b (s : st) (g : gid) : bool := negb (Nat.eqb (g_scope (groups s g)) 0).
@@ -97,7 +97,8 @@ Definition in_aexit (s : st) (t : tid) (g : gid) (w : sid) : Prop :=
 
 Record DInv (s : st) : Prop := {
   n_one : 1 <= ngroup s;
-  n_un : forall g, g = 0 \/ ngroup s <= g -> groups s g = group0;
+  n_un : forall g, g = 0 \/ ngroup s <= g ->
+      g_scope (groups s g) = 0 /\ g_entered (groups s g) = false /\ g_left (groups s g) = false;
   d_f1 : forall g g', real s g -> real s g' -> g_scope (groups s g) = g_scope (groups s g') -> g = g';
   d_f2 : forall t g, k_group (tasks s t) <> None -> real s g -> k_hscope (tasks s t) <> g_scope (groups s g);
   d_entr : forall g, g_entered (groups s g) = true -> real s g;
@@ -114,9 +115,9 @@ Record DInv (s : st) : Prop := {
 Lemma real_galloc s g : DInv s -> real s g -> 0 < g < ngroup s.
 Proof.
   intros D Hr. destruct (Nat.eq_dec g 0) as [->|H0].
-  - exfalso. apply Hr. now rewrite (n_un s D 0 (or_introl eq_refl)).
+  - exfalso. apply Hr. apply (n_un s D 0 (or_introl eq_refl)).
   - destruct (Nat.lt_ge_cases g (ngroup s)) as [Hl|Hg]; [lia|].
-    exfalso. apply Hr. now rewrite (n_un s D g (or_intror Hg)).
+    exfalso. apply Hr. apply (n_un s D g (or_intror Hg)).
 Qed.
 
 Lemma not_group_scope s c : DInv s -> is_group_scope s c = false -> forall g, real s g -> g_scope (groups s g) <> c.
@@ -162,3 +163,804 @@ Proof.
       (refine (conj eq_refl (conj (fun H => H) (conj _ (conj (fun H => H) (conj _ _))))); auto;
        intros H; left; intros H0; rewrite H0 in H; cbn in H; contradiction).
 Qed.
+
+(* ---------------- resumption of the task inside __aexit__ ---------------- *)
+Definition ax_facts (s : st) (t : tid) (g : gid) (w : sid) : Prop :=
+  let gs := g_scope (groups s g) in
+  s_active (scopes s gs) = true /\ s_host (scopes s gs) = Some t /\ s_parent (scopes s w) = Some gs /\ w <> gs /\
+  gs < nscope s /\ owns s t w.
+
+Definition ax_blocked (s0 s' : st) (t : tid) (g : gid) : Prop :=
+  let gs := g_scope (groups s0 g) in
+  g_left (groups s' g) = g_left (groups s0 g) /\
+  exists w', in_aexit s' t g w' /\ s_active (scopes s' gs) = true /\
+     s_host (scopes s' gs) = Some t /\ s_parent (scopes s' w') = Some gs /\ w' <> gs.
+
+Definition ax_result (s0 s' : st) (t : tid) (g : gid) : Prop :=
+  (s_active (scopes s' (g_scope (groups s0 g))) = false /\ k_ctl (tasks s' t) = CIdle) \/ ax_blocked s0 s' t g.
+
+Lemma wof_result s t g ws exc : aexit_pre s t g ws ->
+  ax_result s (fst (aexit_wait_or_finish s t g ws exc)) t g.
+Proof.
+  intros P. destruct (g_tasks (groups s g)) as [|a l] eqn:Et.
+  - left. split; [apply wof_finishes; auto|apply wof_finishes_ctl; auto].
+  - right. destruct (wof_blocks s t g ws exc P) as [w' [H1 [H2 [H3 [H4 [H5 H6]]]]]]; [rewrite Et; discriminate|].
+    split; [exact H6|]. exists w'. split; [exists exc; left; exact H1|auto].
+Qed.
+
+Lemma ax_result_pre s0 s1 s' t g : groups s1 = groups s0 -> ax_result s1 s' t g -> ax_result s0 s' t g.
+Proof. intros E. unfold ax_result, ax_blocked. now rewrite E. Qed.
+
+(* what aexit_pre / ax_facts look at *)
+Definition psame (s s' : st) : Prop :=
+  (forall x, sc_same (scopes s x) (scopes s' x)) /\ (forall t, k_cur (tasks s' t) = k_cur (tasks s t)) /\
+  nscope s <= nscope s' /\ (forall g, g_scope (groups s' g) = g_scope (groups s g)).
+
+Lemma psame_refl s : psame s s.
+Proof. refine (conj _ (conj _ (conj _ _))); auto. intros x. apply sc_same_refl. Qed.
+
+Lemma psame_trans a b c : psame a b -> psame b c -> psame a c.
+Proof.
+  intros [A1 [A2 [A3 A4]]] [B1 [B2 [B3 B4]]]. refine (conj _ (conj _ (conj _ _))).
+  - intros x. destruct (A1 x) as [E1 [E2 E3]]. destruct (B1 x) as [F1 [F2 F3]]. unfold sc_same. rewrite F1, F2, F3. auto.
+  - intros t. now rewrite B2, A2.
+  - lia.
+  - intros g. now rewrite B4, A4.
+Qed.
+
+Lemma psame_kstar s s' : kstar none_s none_t s s' -> psame s s'.
+Proof.
+  intros KS. refine (conj _ (conj _ (conj _ _))).
+  - intros x. apply (kstar_none_same s s' x KS).
+  - intros t. apply (kstar_none_cur s s' t KS).
+  - rewrite (fr_nscope _ _ _ _ (kframe_kstar _ _ _ _ KS)). lia.
+  - intros g. now rewrite (groups_kstar _ _ _ _ KS).
+Qed.
+
+Lemma psame_eq s s' : scopes s' = scopes s -> (forall t, k_cur (tasks s' t) = k_cur (tasks s t)) ->
+  nscope s' = nscope s -> (forall g, g_scope (groups s' g) = g_scope (groups s g)) -> psame s s'.
+Proof.
+  intros E1 E2 E3 E4. refine (conj _ (conj E2 (conj _ E4))); [|lia]. intros x. rewrite E1. apply sc_same_refl.
+Qed.
+
+Lemma psame_gr_fut s g x : psame s (upd_group s g (gr_fut x)).
+Proof.
+  apply psame_eq; try reflexivity. intros g'. cbn [upd_group set_groups groups]. unfold upd.
+  destruct (Nat.eqb_spec g' g); [subst; reflexivity|reflexivity].
+Qed.
+
+Lemma psame_incs s0 t : psame s0 (incs s0 t).
+Proof. apply psame_eq; try reflexivity. intros x. apply (incs_cview s0 t x). Qed.
+
+Lemma aexit_pre_psame s s' t g ws : psame s s' -> aexit_pre s t g ws -> aexit_pre s' t g ws.
+Proof.
+  intros [P1 [P2 [P3 P4]]]. unfold aexit_pre, owns. rewrite P4. destruct ws as [w|].
+  - intros [[O1 [O2 [O3 O4]]] [Hp [Hne [Ha [Hh Hlt]]]]].
+    destruct (P1 w) as [E1 [E2 E3]]. destruct (P1 (g_scope (groups s g))) as [F1 [F2 _]].
+    rewrite E1, E2, E3, F1, F2, P2. repeat split; auto; lia.
+  - intros [O1 [O2 [O3 O4]]]. destruct (P1 (g_scope (groups s g))) as [F1 [F2 _]].
+    rewrite F1, F2, P2. repeat split; auto; lia.
+Qed.
+
+Lemma ax_result_psame s0 s1 s' t g : (forall x, g_scope (groups s1 x) = g_scope (groups s0 x)) ->
+  g_left (groups s1 g) = g_left (groups s0 g) -> ax_result s1 s' t g -> ax_result s0 s' t g.
+Proof. intros E1 E2. unfold ax_result, ax_blocked. now rewrite E1, E2. Qed.
+
+Lemma resume_aexit_result s0 t fo g w : wake_ok s0 t fo -> in_aexit s0 t g w -> ax_facts s0 t g w ->
+  ax_result s0 (fst (resume s0 t fo)) t g.
+Proof.
+  intros W [exc Hc] [Ha [Hh [Hp [Hne [Hlt O]]]]].
+  pose proof (w_m _ _ _ W) as M0.
+  assert (Hnr : running s0 <> Some t) by (rewrite (w_run _ _ _ W); discriminate).
+  assert (Pre0 : aexit_pre s0 t g (Some w)) by (unfold aexit_pre; auto 10).
+  rewrite resume_unfold. cbn zeta. set (s := incs s0 t) in *. set (inc := snd (incoming s0 t fo)).
+  assert (PS : psame s0 s) by apply psame_incs.
+  destruct Hc as [Hc|Hc]; rewrite Hc.
+  - (* CAexitWait *)
+    set (s1 := upd_group s g (gr_fut None)).
+    assert (PS1 : psame s0 s1) by (eapply psame_trans; [exact PS|apply psame_gr_fut]).
+    assert (GL1 : g_left (groups s1 g) = g_left (groups s0 g)).
+    { unfold s1. cbn [upd_group set_groups groups]. rewrite upd_same. reflexivity. }
+    destruct inc as [e|].
+    + match goal with |- ax_result _ (fst (aexit_wait_or_finish ?x _ _ _ ?e')) _ _ => set (s3 := x); set (exc' := e') end.
+      assert (PS3 : psame s0 s3).
+      { eapply psame_trans; [exact PS1|]. unfold s3. eapply psame_trans; [|apply psame_kstar, ks_scope_cancel].
+        apply psame_kstar, ks_one, kp_scope_keeps, keeps_shield. }
+      assert (GL3 : g_left (groups s3 g) = g_left (groups s0 g)).
+      { unfold s3. rewrite groups_scope_cancel. exact GL1. }
+      apply (ax_result_psame s0 s3); [apply PS3|exact GL3|]. apply wof_result. apply (aexit_pre_psame s0 s3); auto.
+    + apply (ax_result_psame s0 s1); [apply PS1|exact GL1|]. apply wof_result. apply (aexit_pre_psame s0 s1); auto.
+  - (* CAexitCk: the handle was a HStep, inc is None or a cancellation *)
+    assert (Hfo : fo = None).
+    { pose proof (c_w s0 (m_c s0 M0) t Hnr) as Hw. rewrite Hc in Hw. cbn in Hw.
+      destruct fo as [f|]; [|reflexivity]. destruct (w_fo _ _ _ W) as [H _]. congruence. }
+    subst fo. pose proof (incoming_none_shape s0 t) as Hinc. fold inc in Hinc.
+    assert (Pre : aexit_pre s t g (Some w)) by (apply (aexit_pre_psame s0 s); auto).
+    destruct Pre as [Ow [Hp' [Hne' [Ha' [Hh' Hlt']]]]].
+    pose proof (scope_exit_no_raise s w t inc Ow Hinc) as Hx.
+    destruct (scope_exit_success s w t inc Ow) as [_ Hcur].
+    destruct (scope_exit_other s w t inc (g_scope (groups s g)) (fun E => Hne' (eq_sym E))) as [E1 [E2 _]].
+    pose proof (groups_scope_exit s w t inc) as Hg.
+    pose proof (fr_nscope _ _ _ _ (kframe_kstar _ _ _ _ (ks_scope_exit s w t inc))) as Hn.
+    destruct (scope_exit s w t inc) as [s1 x]. cbn [fst snd] in *.
+    assert (Pre1 : aexit_pre s1 t g None).
+    { unfold aexit_pre, owns. rewrite Hg, E1, E2, Hcur, Hp', Hn. auto. }
+    assert (GS1 : forall x0, g_scope (groups s1 x0) = g_scope (groups s0 x0)) by (intros x0; now rewrite Hg).
+    assert (GL1 : g_left (groups s1 g) = g_left (groups s0 g)) by (now rewrite Hg).
+    destruct Hx as [-> | ->].
+    + apply (ax_result_psame s0 s1); auto. apply wof_result, Pre1.
+    + destruct Hinc as [->|[mm ->]]; [apply (ax_result_psame s0 s1); auto; apply wof_result, Pre1|].
+      cbn [is_cancel].
+      match goal with |- ax_result _ (fst (aexit_wait_or_finish ?x _ _ _ _)) _ _ => set (s2 := x) end.
+      assert (PS2 : psame s1 s2) by (apply psame_kstar, ks_scope_cancel).
+      apply (ax_result_psame s0 s2).
+      * intros x0. destruct PS2 as [_ [_ [_ P4]]]. now rewrite P4.
+      * unfold s2. now rewrite groups_scope_cancel.
+      * apply wof_result. apply (aexit_pre_psame s1 s2); auto.
+Qed.
+
+(* AGroupExit by the owner of the group's scope: it never leaves in the same step; the task is inside __aexit__ *)
+Lemma group_exit_result s0 t g : let gs := g_scope (groups s0 g) in
+  s_active (scopes s0 gs) = true -> s_host (scopes s0 gs) = Some t -> k_cur (tasks s0 t) = Some gs -> gs < nscope s0 ->
+  ax_blocked s0 (fst (puppet_op s0 t (AGroupExit t g))) t g.
+Proof.
+  cbn zeta. intros Ha Hh Hc Hlt.
+  assert (Pre0 : aexit_pre s0 t g None) by (unfold aexit_pre, owns; auto).
+  unfold puppet_op. set (s := begin_act s0 t). cbn zeta.
+  assert (PS : psame s0 s).
+  { apply psame_eq; try reflexivity. intros x. unfold s, begin_act. tcase x t; [subst; reflexivity|reflexivity]. }
+  match goal with |- context [match g_tasks (groups ?x g) with _ => _ end] => set (s1 := x) end.
+  assert (PS1 : psame s0 s1 /\ g_left (groups s1 g) = g_left (groups s0 g)).
+  { unfold s1. destruct (k_held (tasks s t)) as [e|]; [|split; [exact PS|reflexivity]].
+    assert (PSc : psame s0 (scope_cancel s (g_scope (groups s g)) false)).
+    { eapply psame_trans; [exact PS|apply psame_kstar, ks_scope_cancel]. }
+    destruct (is_cancel e).
+    - split; [exact PSc|]. now rewrite groups_scope_cancel.
+    - split.
+      + eapply psame_trans; [exact PSc|]. apply psame_eq; try reflexivity. intros g'.
+        cbn [upd_group set_groups groups]. unfold upd. destruct (Nat.eqb_spec g' g); [subst; reflexivity|reflexivity].
+      + cbn [upd_group set_groups groups]. rewrite upd_same. cbn. now rewrite groups_scope_cancel. }
+  destruct PS1 as [PS1 GL1].
+  assert (Pre1 : aexit_pre s1 t g None) by (apply (aexit_pre_psame s0 s1); auto).
+  assert (GS1 : g_scope (groups s1 g) = g_scope (groups s0 g)) by apply PS1.
+  unfold ax_blocked. rewrite <- GS1, <- GL1.
+  destruct (g_tasks (groups s1 g)) as [|a l] eqn:Et.
+  - rewrite new_scope_eq. cbn zeta.
+    set (s3 := fst (scope_enter (ns s1 None true) (nscope s1) t)).
+    destruct Pre1 as [A1 [H1 [C1 L1]]].
+    assert (Hne : g_scope (groups s1 g) <> nscope s1) by lia.
+    destruct (scope_enter_other (ns s1 None true) (nscope s1) t (g_scope (groups s1 g)) Hne) as [E1 [E2 _]].
+    split.
+    + cbn [blocked fst set_running set_ctl upd_task set_tasks bare_yield call_soon set_ready groups].
+      unfold s3. now rewrite groups_scope_enter.
+    + exists (nscope s1). refine (conj _ (conj _ (conj _ (conj _ _)))).
+      * exists (k_held (tasks s t)). right. cbn [blocked fst]. tcase t t; [reflexivity|contradiction].
+      * cbn [blocked fst set_running set_ctl upd_task set_tasks bare_yield call_soon set_ready scopes].
+        unfold s3. rewrite E1, ns_scope_old; auto.
+      * cbn [blocked fst set_running set_ctl upd_task set_tasks bare_yield call_soon set_ready scopes].
+        unfold s3. rewrite E2, ns_scope_old; auto.
+      * cbn [blocked fst set_running set_ctl upd_task set_tasks bare_yield call_soon set_ready scopes].
+        unfold s3. rewrite scope_enter_parent; [|apply ns_inactive]. exact C1.
+      * lia.
+  - destruct (wof_blocks s1 t g None (k_held (tasks s t)) Pre1) as [w' [H1 [H2 [H3 [H4 [H5 H6]]]]]]; [rewrite Et; discriminate|].
+    unfold aexit_wait_or_finish in *. rewrite Et in *.
+    split; [exact H6|]. exists w'. split; [exists (k_held (tasks s t)); left; exact H1|auto].
+Qed.
+
+(* ---------------- which steps can put a task into an __aexit__ control state ---------------- *)
+Definition naex (c : ctl) : Prop := forall g w exc, c <> CAexitWait g w exc /\ c <> CAexitCk g w exc.
+
+Lemma naex_idle : naex CIdle. Proof. intros g w exc. split; discriminate. Qed.
+Lemma naex_done : naex CDone. Proof. intros g w exc. split; discriminate. Qed.
+
+Lemma ctl_ret s t r : k_ctl (tasks (fst (ret_to_puppet s t r)) t) = CIdle.
+Proof. apply (ctl_ret_pair (s, r) t). Qed.
+
+Lemma ctl_block s t c : k_ctl (tasks (fst (blocked (set_ctl s t c))) t) = c.
+Proof. cbn [blocked fst]. tcase t t; [reflexivity|contradiction]. Qed.
+
+Lemma puppet_ctl_naex s0 t o : (forall g, o <> AGroupExit t g) -> (forall t' g, o = AGroupExit t' g -> t' = t) ->
+  naex (k_ctl (tasks s0 t)) -> naex (k_ctl (tasks (fst (puppet_op s0 t o)) t)).
+Proof.
+  intros Hne Hact H0. unfold puppet_op. set (s := begin_act s0 t).
+  assert (NB : forall c, (forall g w exc, c <> CAexitWait g w exc /\ c <> CAexitCk g w exc) -> naex c) by (intros c H; exact H).
+  destruct o.
+  - (* ANewScope *) rewrite new_scope_eq. rewrite ctl_ret. apply naex_idle.
+  - (* AEnter *) destruct (scope_enter s c t) as [s1 e]. rewrite ctl_ret. apply naex_idle.
+  - (* AExit *) destruct (scope_exit s c t (k_held (tasks s t))) as [s1 x].
+    destruct x; [|rewrite ctl_ret; apply naex_idle|rewrite ctl_ret; apply naex_idle].
+    match goal with |- context [if ?b then _ else _] => destruct b end; rewrite ctl_ret; apply naex_idle.
+  - (* ACancel *) rewrite ctl_ret. apply naex_idle.
+  - (* ASetShield *) destruct (Bool.eqb _ b); rewrite ctl_ret; apply naex_idle.
+  - (* ASetDeadline *) cbn zeta. rewrite ctl_ret. apply naex_idle.
+  - (* AGroupNew *) rewrite new_scope_eq. cbn zeta. rewrite ctl_ret. apply naex_idle.
+  - (* AGroupEnter *) destruct (g_entered (groups s g)); [rewrite ctl_ret; apply naex_idle|]. cbn zeta.
+    match goal with |- context [scope_enter ?a ?b ?c] => destruct (scope_enter a b c) as [s2 e] end.
+    rewrite ctl_ret. apply naex_idle.
+  - (* AGroupExit *) exfalso. apply (Hne g). f_equal. apply (Hact t0 g eq_refl).
+  - (* ASpawn *) destruct (negb (group_active s g)); [rewrite ctl_ret; apply naex_idle|]. rewrite spawn_task_eq, ctl_ret. apply naex_idle.
+  - (* AStart *) destruct (negb (group_active s g)); [rewrite ctl_ret; apply naex_idle|]. rewrite new_fut_eq. cbv beta iota.
+    rewrite spawn_task_eq. cbv beta iota. rewrite ctl_block. intros g0 w exc. split; discriminate.
+  - (* AStarted *) destruct (k_startfut (tasks s t)) as [f|]; [|rewrite ctl_ret; apply naex_idle].
+    destruct (f_st (futs s f)); rewrite ctl_ret; apply naex_idle.
+  - (* AHandleCancel *) destruct (e_set _); rewrite ctl_ret; apply naex_idle.
+  - (* AHandleWait *) destruct (event_wait s t (k_hevent (tasks s h))) as [s1 f]. rewrite ctl_block. intros g0 w exc. split; discriminate.
+  - (* AYield *) rewrite ctl_block. intros g0 w exc. split; discriminate.
+  - (* ACkIf *) destruct (ckif_spins _ _ _); [rewrite ctl_block; intros g0 w exc; split; discriminate|rewrite ctl_ret; apply naex_idle].
+  - (* AShieldCk *) rewrite new_scope_eq. cbn zeta. rewrite ctl_block. intros g0 w exc. split; discriminate.
+  - (* ASleep *) rewrite new_fut_eq. destruct d as [dt|].
+    + rewrite call_at_eq. rewrite ctl_block. intros g0 w exc. split; discriminate.
+    + rewrite ctl_block. intros g0 w exc. split; discriminate.
+  - rewrite ctl_ret. apply naex_idle.
+  - rewrite ctl_ret. apply naex_idle.
+  - rewrite ctl_ret. apply naex_idle.
+  - exact H0.
+  - rewrite ctl_ret. apply naex_idle.
+  - (* AEffDeadline *) cbn [fst set_running tasks]. rewrite ctl_after_park. apply naex_idle.
+  - (* AFailAt *) rewrite new_scope_eq. destruct (scope_enter (ns s d sh) (nscope s) t) as [s2 e]. rewrite ctl_ret. apply naex_idle.
+  - exact H0.
+  - exact H0.
+  - exact H0.
+  - exact H0.
+  - exact H0.
+Qed.
+
+Lemma ctl_finish_task s t o : k_ctl (tasks (finish_task s t o) t) = CDone.
+Proof. rewrite finish_task_eq. cbn zeta. destruct (k_group (tasks s t)); tcase t t; try contradiction; reflexivity. Qed.
+
+Lemma resume_ctl_naex s0 t fo : naex (k_ctl (tasks s0 t)) -> naex (k_ctl (tasks (fst (resume s0 t fo)) t)).
+Proof.
+  intros H0. rewrite resume_unfold. cbn zeta. set (s := incs s0 t). set (inc := snd (incoming s0 t fo)).
+  destruct (k_ctl (tasks s0 t)) as [| |k|f tm|g ws exc|g c exc|g child f|child c e wf|h wf|] eqn:Ec.
+  - destruct inc as [e|]; cbn [fst].
+    + rewrite ctl_finish_task. apply naex_done.
+    + cbn [set_running tasks]. rewrite ctl_after_park. apply naex_idle.
+  - cbn [fst set_running tasks]. rewrite ctl_after_park. apply naex_idle.
+  - destruct k as [| |c].
+    + rewrite ctl_ret. apply naex_idle.
+    + destruct inc; [rewrite ctl_ret; apply naex_idle|].
+      cbn [blocked fst set_running bare_yield call_soon set_ready tasks]. unfold s. rewrite incs_ctl, Ec.
+      intros g0 w exc. split; discriminate.
+    + destruct (scope_exit s c t inc) as [s1 x]. destruct x; rewrite ctl_ret; apply naex_idle.
+  - rewrite ctl_ret. apply naex_idle.
+  - exfalso. destruct (H0 g ws exc) as [H _]. apply H. reflexivity.
+  - exfalso. destruct (H0 g c exc) as [_ H]. apply H. reflexivity.
+  - destruct inc as [e|]; [|rewrite ctl_ret; apply naex_idle].
+    destruct (handle_pending s child); [|rewrite ctl_ret; apply naex_idle].
+    rewrite new_scope_eq. cbn zeta.
+    match goal with |- context [event_wait ?a ?b ?c] => destruct (event_wait a b c) as [s4 wf] end.
+    rewrite ctl_block. intros g0 w exc. split; discriminate.
+  - match goal with |- context [scope_exit ?a ?b ?c ?d] => destruct (scope_exit a b c d) as [s2 x] end.
+    destruct x; [|destruct inc|]; rewrite ctl_ret; apply naex_idle.
+  - rewrite ctl_ret. apply naex_idle.
+  - cbn [fst]. rewrite Ec. apply naex_done.
+Qed.
+
+Lemma in_aexit_naex s t g w : in_aexit s t g w -> naex (k_ctl (tasks s t)) -> False.
+Proof. intros [exc [H|H]] N; destruct (N g w exc) as [N1 N2]; congruence. Qed.
+
+Lemma not_in_aexit_naex s t : (forall g w, ~ in_aexit s t g w) -> naex (k_ctl (tasks s t)).
+Proof.
+  intros H g w exc. split; intros E; apply (H g w); exists exc; auto.
+Qed.
+
+(* unfolding of step for the operations we follow *)
+Lemma step_group_exit s t g : idle s t = true -> fst (step s (AGroupExit t g)) = fst (puppet_op s t (AGroupExit t g)).
+Proof. intros Hi. cbn [step actor]. now rewrite Hi. Qed.
+
+Lemma step_run_in s h : In h (ready s) -> step s (ARun h) =
+  match h with
+  | HStep t => resume (pop s h) t None
+  | HWake t f => resume (pop s h) t (Some f)
+  | HDeliver c => (set_running (deliver_top (set_running (pop s h) None) c) None, RNone)
+  | HTaskDone t => (run_task_done (pop s h) t, RNone)
+  | HSleepDone f _ => (fut_complete (pop s h) f (FRes 0), RNone)
+  | HTimeout c _ => (set_running (scope_timeout (set_running (pop s h) None) c) None, RNone)
+  end.
+Proof.
+  intros Hin. cbn [step actor]. unfold run_handle.
+  assert (E : existsb (handle_eqb h) (ready s) = true) by (apply existsb_handle; exact Hin).
+  rewrite E. cbn [negb]. reflexivity.
+Qed.
+
+Lemma step_run_notin s h : ~ In h (ready s) -> step s (ARun h) = (s, RRejected).
+Proof.
+  intros Hin. cbn [step actor]. unfold run_handle.
+  destruct (existsb (handle_eqb h) (ready s)) eqn:E; [apply existsb_handle in E; contradiction|reflexivity].
+Qed.
+
+Lemma ntask_ret s t r : ntask (fst (ret_to_puppet s t r)) = ntask s.
+Proof.
+  unfold ret_to_puppet, park. cbn [fst set_running ntask]. match goal with |- context [new_fut ?a] => rewrite (new_fut_eq a) end.
+  cbn [upd_task set_tasks ntask]. assert (H : forall a f, ntask (suspend_on a t f) = ntask a).
+  { intros a f. unfold suspend_on. destruct (f_st (futs a f)); try reflexivity.
+    destruct (k_must (tasks a t)); [|reflexivity]. cbn [upd_task set_tasks ntask]. now rewrite fc_ntask. }
+  rewrite H. destruct r; reflexivity.
+Qed.
+
+Lemma group_new_facts s t : idle s t = true ->
+  let s' := fst (step s (AGroupNew t)) in
+  ntask s' = ntask s /\ s_active (scopes s' (nscope s)) = false.
+Proof.
+  intros Hi. cbn zeta. cbn [step actor]. rewrite Hi. cbn [negb]. unfold puppet_op. rewrite new_scope_eq. cbn zeta.
+  rewrite ntask_ret, scopes_ret. split; [reflexivity|]. cbn [scopes]. change (scopes (ns (begin_act s t) None false) (nscope s))
+    with (scopes (ns (begin_act s t) None false) (nscope (begin_act s t))). rewrite ns_scope_new. reflexivity.
+Qed.
+
+(* ---------------- preservation of DInv by a disciplined step ---------------- *)
+Lemma real_keep s o g : reach s -> DInv s -> real s g ->
+  g_scope (groups (fst (step s o)) g) = g_scope (groups s g).
+Proof.
+  intros R D Hr. destruct (gc_norm s o g R) as [[E _]|[E _]]; [|exact E].
+  destruct (real_galloc s g D Hr) as [_ H]. lia.
+Qed.
+
+Lemma real_back s o g : reach s -> real (fst (step s o)) g ->
+  (real s g /\ g_scope (groups (fst (step s o)) g) = g_scope (groups s g)) \/
+  (g = ngroup s /\ (exists t, o = AGroupNew t /\ idle s t = true) /\
+   groups (fst (step s o)) g = mkGroup (nscope s) false [] [] None [] false).
+Proof.
+  intros R Hr. destruct (gc_norm s o g R) as [[E1 [E2 E3]]|[E _]]; [right; auto|].
+  left. split; [|exact E]. unfold real in *. now rewrite <- E.
+Qed.
+
+Lemma okop_enter s t c : okop s (AEnter t c) = true -> is_group_scope s c = false.
+Proof. cbn. intros H. now destruct (is_group_scope s c). Qed.
+
+Lemma okop_genter s t g : okop s (AGroupEnter t g) = true -> real s g.
+Proof. cbn. unfold real_b, real. intros H E. rewrite E in H. discriminate. Qed.
+
+Lemma okop_gexit s t g : okop s (AGroupExit t g) = true ->
+  real s g /\ s_active (scopes s (g_scope (groups s g))) = true /\
+  s_host (scopes s (g_scope (groups s g))) = Some t /\ k_cur (tasks s t) = Some (g_scope (groups s g)).
+Proof.
+  cbn. intros H. apply andb_prop in H. destruct H as [H H4]. apply andb_prop in H. destruct H as [H H3].
+  apply andb_prop in H. destruct H as [H1 H2].
+  refine (conj _ (conj H2 (conj _ _))).
+  - unfold real_b, real in *. intros E. rewrite E in H1. discriminate.
+  - destruct (s_host (scopes s (g_scope (groups s g)))) as [h|]; [|discriminate]. cbn in H3. apply Nat.eqb_eq in H3. now subst.
+  - destruct (k_cur (tasks s t)) as [c|]; [|discriminate]. cbn in H4. apply Nat.eqb_eq in H4. now subst.
+Qed.
+
+(* entered s o c is decidable *)
+Lemma classic_entered s o c : entered s o c \/ ~ entered s o c.
+Proof.
+  assert (N : none_s c \/ ~ none_s c) by (right; intros H; exact H).
+  destruct o; cbn [entered]; try exact N.
+  - destruct (Nat.eq_dec c0 c) as [E|E]; [left; exact E|right; exact E].
+  - destruct (Nat.eq_dec (g_scope (groups s g)) c) as [E|E]; [left; exact E|right; exact E].
+  - destruct h as [t|t f| | | |]; try exact N.
+    + destruct (k_ctl (tasks s t)); try exact N. destruct (k_group (tasks s t)); [|exact N].
+      destruct (Nat.eq_dec (k_hscope (tasks s t)) c) as [E|E]; [left; exact E|right; exact E].
+    + destruct (k_ctl (tasks s t)); try exact N. destruct (k_group (tasks s t)); [|exact N].
+      destruct (Nat.eq_dec (k_hscope (tasks s t)) c) as [E|E]; [left; exact E|right; exact E].
+Qed.
+
+(* a group's scope can be (re)activated only by AGroupEnter of that group *)
+Lemma entered_group_scope s o g : reach s -> DInv s -> okop s o = true -> real s g ->
+  entered s o (g_scope (groups s g)) -> exists t, o = AGroupEnter t g.
+Proof.
+  intros R D Ho Hr He. destruct o; cbn [entered] in He; try contradiction.
+  - exfalso. apply (not_group_scope s c D (okop_enter s t c Ho) g Hr). now rewrite He.
+  - exists t. f_equal. apply (d_f1 s D g0 g); [apply (okop_genter s t g0 Ho)|exact Hr|exact He].
+  - destruct h as [t|t f| | | |]; try contradiction.
+    + destruct (k_ctl (tasks s t)); try contradiction. destruct (k_group (tasks s t)) eqn:Eg; [|contradiction].
+      exfalso. apply (d_f2 s D t g); [congruence|exact Hr|exact He].
+    + destruct (k_ctl (tasks s t)); try contradiction. destruct (k_group (tasks s t)) eqn:Eg; [|contradiction].
+      exfalso. apply (d_f2 s D t g); [congruence|exact Hr|exact He].
+Qed.
+
+Lemma inactive_group_scope_stays s o g : reach s -> DInv s -> okop s o = true -> real s g ->
+  g_entered (groups s g) = true -> s_active (scopes s (g_scope (groups s g))) = false ->
+  s_active (scopes (fst (step s o)) (g_scope (groups s g))) = false.
+Proof.
+  intros R D Ho Hr Hent Hin. destruct (reach_inv s R) as [M _].
+  pose proof (b_gscope s (m_g s M) g) as Hlt.
+  destruct (step_scope_frame s o) as [_ [_ [SF _]]]. destruct (SF _ Hlt) as [SFi _].
+  destruct (classic_entered s o (g_scope (groups s g))) as [He|He].
+  - destruct (entered_group_scope s o g R D Ho Hr He) as [t ->].
+    rewrite scopes_group_enter_entered; auto.
+  - destruct (SFi Hin He) as [E _]. now rewrite E.
+Qed.
+
+Lemma ax_facts_of s t g w : reach s -> DInv s -> in_aexit s t g w -> ax_facts s t g w.
+Proof.
+  intros R D Hin. destruct (reach_inv s R) as [M Hrun].
+  destruct (d_ax s D t g w Hin) as [Hr [Hl [He [Ha [Hh [Hp Hne]]]]]].
+  assert (Hnr : running s <> Some t) by (rewrite Hrun; discriminate).
+  assert (Ht : top_scope (k_ctl (tasks s t)) = Some w) by (destruct Hin as [exc [H|H]]; rewrite H; reflexivity).
+  destruct (c_top s (m_c s M) t w Hnr Ht) as [O1 [O2 [O3 O4]]].
+  unfold ax_facts, owns. pose proof (b_gscope s (m_g s M) g). auto 10.
+Qed.
+
+Lemma alloc_of_in_aexit s t g w : reach s -> in_aexit s t g w -> alloc s t.
+Proof.
+  intros R [exc H]. destruct (reach_inv s R) as [M _].
+  destruct (Nat.eq_dec t 0) as [->|H0]; [|destruct (Nat.lt_ge_cases t (ntask s)) as [Hl|Hg]; [split; lia|]].
+  - exfalso. assert (Hn : ~ alloc s 0) by (unfold alloc; lia).
+    destruct (c_unalloc s (m_c s M) 0 Hn) as [E _]. destruct H as [H|H]; congruence.
+  - exfalso. assert (Hn : ~ alloc s t) by (unfold alloc; lia).
+    destruct (c_unalloc s (m_c s M) t Hn) as [E _]. destruct H as [H|H]; congruence.
+Qed.
+
+Lemma in_dec_handle (h : handle) l : In h l \/ ~ In h l.
+Proof.
+  destruct (existsb (handle_eqb h) l) eqn:E; [left; apply existsb_handle, E|right].
+  intros H. apply existsb_handle in H. congruence.
+Qed.
+
+Lemma in_aexit_dec s t : (exists g w, in_aexit s t g w) \/ naex (k_ctl (tasks s t)).
+Proof.
+  destruct (k_ctl (tasks s t)) as [| |k|f tm|g ws exc|g c exc|g child f|child c e wf|h wf|] eqn:Ec;
+    try (right; intros g0 w0 exc0; split; discriminate).
+  - left. exists g, ws, exc. left. exact Ec.
+  - left. exists g, c, exc. right. exact Ec.
+Qed.
+
+(* the task t resumed by this step is (still) inside __aexit__ afterwards *)
+Lemma resumed_ax s t fo g w s0 : reach s -> DInv s -> wake_ok s0 t fo ->
+  tasks s0 = tasks s -> scopes s0 = scopes s -> groups s0 = groups s -> nscope s0 = nscope s ->
+  in_aexit (fst (resume s0 t fo)) t g w ->
+  let s' := fst (resume s0 t fo) in let gs := g_scope (groups s g) in
+  (exists w0, in_aexit s t g w0) /\ g_left (groups s' g) = false /\ s_active (scopes s' gs) = true /\
+  s_host (scopes s' gs) = Some t /\ s_parent (scopes s' w) = Some gs /\ w <> gs.
+Proof.
+  intros R D W Et Es Eg En Hax'. cbn zeta.
+  destruct (in_aexit_dec s t) as [[g0 [w0 Hax]]|N].
+  - pose proof (ax_facts_of s t g0 w0 R D Hax) as AF.
+    assert (Hax0 : in_aexit s0 t g0 w0) by (unfold in_aexit in *; now rewrite Et).
+    assert (AF0 : ax_facts s0 t g0 w0) by (unfold ax_facts, owns in *; now rewrite Et, Es, Eg, En).
+    destruct (resume_aexit_result s0 t fo g0 w0 W Hax0 AF0) as [[_ Hc]|[GL [w' [Hax2 [A2 [H2 [P2 N2]]]]]]].
+    + exfalso. destruct Hax' as [exc [H|H]]; congruence.
+    + assert (Egw : g = g0 /\ w = w').
+      { destruct Hax' as [e1 [H1|H1]]; destruct Hax2 as [e2 [H3|H3]]; rewrite H1 in H3; first [discriminate|injection H3; auto]. }
+      destruct Egw as [-> ->]. rewrite Eg in *. destruct (d_ax s D t g0 w0 Hax) as [_ [Hl _]].
+      refine (conj (ex_intro _ w0 Hax) (conj _ (conj A2 (conj H2 (conj P2 N2))))). congruence.
+  - exfalso. apply (in_aexit_naex _ t g w Hax'). apply resume_ctl_naex. now rewrite Et.
+Qed.
+
+(* the acting task of a flip: it is the task inside __aexit__ of that group *)
+Lemma dinv_step s o : reach s -> DInv s -> okop s o = true -> DInv (fst (step s o)).
+Proof.
+  intros R D Ho. set (s' := fst (step s o)).
+  pose proof (reach_inv s R) as [M Hrun]. pose proof (reach_inv s' (reach_step s o R)) as [M' Hrun'].
+  pose proof (task_facts_stable s o R) as TS. fold s' in TS.
+  pose proof (step_scope_frame s o) as [_ [_ [SFs SFt]]]. fold s' in SFs, SFt.
+  pose proof (new_task_qh (nscope s) s o R eq_refl) as NQ. fold s' in NQ.
+  assert (Hng : ngroup s <= ngroup s') by (apply tstab_ngroup, TS).
+  assert (RK : forall g, real s g -> g_scope (groups s' g) = g_scope (groups s g)) by (intros g; apply real_keep; auto).
+  assert (RS : forall g, real s g -> real s' g) by (intros g Hr; unfold real; rewrite RK; auto).
+  assert (RB := fun g => real_back s o g R). fold s' in RB.
+  assert (GN := fun g => gc_norm s o g R). cbn zeta in GN. fold s' in GN.
+  assert (Bg := b_gscope s (m_g s M)).
+  constructor.
+  - (* n_one *) pose proof (n_one s D). lia.
+  - (* n_un *)
+    intros g Hg. assert (Hu : g = 0 \/ ngroup s <= g) by (destruct Hg; [auto|right; lia]).
+    destruct (n_un s D g Hu) as [U1 [U2 U3]].
+    assert (Hnr : ~ real s g) by (intros H; apply H; exact U1).
+    destruct (step_group_cases s o g R) as [E|[[t [E1 [E0 [E2 E]]]]|[[t [E1 E]]|[[t [E1 [E2 [E3 E]]]]|[[t [e [E1 [E2 [E3 [E4 E]]]]]]|[[E P]|[t [E1 [E2 [E3 E]]]]]]]]]];
+      fold s' in E.
+    + rewrite E. auto.
+    + exfalso. subst o. pose proof (ngroup_group_new s t E0) as Hn. fold s' in Hn. pose proof (n_one s D). destruct Hg; lia.
+    + exfalso. subst o. apply Hnr, (okop_genter s t g Ho).
+    + exfalso. unfold group_active in E3. rewrite U2 in E3. discriminate.
+    + exfalso. subst o. apply Hnr, (okop_gexit s t g Ho).
+    + exfalso. destruct P as [[t [-> _]]|[t [h [w [exc [_ [_ [_ P]]]]]]]].
+      * apply Hnr, (okop_gexit s t g Ho).
+      * apply Hnr. apply (d_ax s D t g w). exists exc. exact P.
+    + destruct E as [E|[e [_ E]]]; rewrite E; cbn; auto.
+  - (* d_f1 *)
+    intros g g' Hr Hr' Es.
+    destruct (RB g Hr) as [[H1 H2]|[H1 [H2 H3]]]; destruct (RB g' Hr') as [[H1' H2']|[H1' [H2' H3']]].
+    + apply (d_f1 s D g g' H1 H1'). congruence.
+    + exfalso. rewrite H2, H3' in Es. cbn in Es. pose proof (Bg g). lia.
+    + exfalso. rewrite H2', H3 in Es. cbn in Es. pose proof (Bg g'). lia.
+    + congruence.
+  - (* d_f2 *)
+    intros t g Hgr Hr. destruct TS as [_ TS2].
+    destruct (Nat.lt_ge_cases t (ntask s)) as [Hlt|Hge].
+    + destruct (TS2 t Hlt) as [T1 [T2 _]]. rewrite T1 in Hgr. rewrite T2.
+      destruct (RB g Hr) as [[H1 H2]|[H1 [H2 H3]]].
+      * rewrite H2. apply (d_f2 s D t g Hgr H1).
+      * rewrite H3. cbn. pose proof (c_bsc s (m_c s M) t). lia.
+    + assert (Hna : ~ alloc s t) by (unfold alloc; lia).
+      destruct (c_unalloc s (m_c s M) t Hna) as [_ [_ [Hg0 _]]].
+      destruct (NQ t (or_introl Hg0)) as [Q|Q]; [contradiction|]. rewrite Q.
+      destruct (RB g Hr) as [[H1 H2]|[H1 [[t0 [-> Hi]] H3]]].
+      * rewrite H2. pose proof (Bg g). lia.
+      * exfalso. destruct (group_new_facts s t0 Hi) as [Hnt _]. fold s' in Hnt.
+        assert (Hna' : ~ alloc s' t) by (unfold alloc; lia).
+        destruct (c_unalloc s' (m_c s' M') t Hna') as [_ [_ [Hg0' _]]]. contradiction.
+  - (* d_entr *)
+    intros g He. destruct (GN g) as [[_ [_ E]]|[_ [_ [E _]]]].
+    + rewrite E in He. discriminate.
+    + destruct (E He) as [H|[t ->]]; [apply RS, (d_entr s D g H)|apply RS, (okop_genter s t g Ho)].
+  - (* d_ent *)
+    intros g Hr Ha.
+    destruct (RB g Hr) as [[H1 H2]|[H1 [[t0 [-> Hi]] H3]]].
+    + rewrite H2 in Ha. destruct (GN g) as [[E _]|[_ [Em _]]]; [destruct (real_galloc s g D H1); lia|].
+      destruct (s_active (scopes s (g_scope (groups s g)))) eqn:Ea0; [apply Em, (d_ent s D g H1 Ea0)|].
+      destruct (SFs _ (Bg g)) as [SFi _].
+      destruct (classic_entered s o (g_scope (groups s g))) as [He|He].
+      * destruct (entered_group_scope s o g R D Ho H1 He) as [t ->].
+        destruct (idle s t) eqn:Ei.
+        -- unfold s'. cbn [step actor]. rewrite Ei. cbn [negb]. rewrite groups_op_group_enter.
+           destruct (g_entered (groups s g)) eqn:Ee; [exact Ee|]. rewrite upd_same. reflexivity.
+        -- exfalso. unfold s' in Ha. cbn [step actor] in Ha. rewrite Ei in Ha. cbn [negb fst] in Ha. congruence.
+      * destruct (SFi Ea0 He) as [E _]. congruence.
+    + exfalso. rewrite H3 in Ha. cbn in Ha. destruct (group_new_facts s t0 Hi) as [_ Hin]. fold s' in Hin. congruence.
+  - (* d_left *)
+    intros g Hl. destruct (GN g) as [[_ [_ E]]|[Es [Em [_ [_ [Ef Et]]]]]]; [rewrite E in Hl; discriminate|].
+    destruct (Ef Hl) as [Hl0|Hflip].
+    + destruct (d_left s D g Hl0) as [Hr [He [Hi Ht]]].
+      refine (conj (RS g Hr) (conj (Em He) (conj _ _))).
+      * rewrite Es. apply inactive_group_scope_stays; auto.
+      * destruct (g_tasks (groups s' g)) eqn:Et'; [reflexivity|]. exfalso.
+        destruct Et as [H|H]; [discriminate|congruence|]. unfold group_active in H. rewrite Hi, andb_false_r in H. discriminate.
+    + destruct (g_left (groups s g)) eqn:Hl0.
+      { (* already left: same as above *)
+        destruct (d_left s D g Hl0) as [Hr [He [Hi Ht]]].
+        refine (conj (RS g Hr) (conj (Em He) (conj _ _))).
+        * rewrite Es. apply inactive_group_scope_stays; auto.
+        * destruct (g_tasks (groups s' g)) eqn:Et'; [reflexivity|]. exfalso.
+          destruct Et as [H|H]; [discriminate|congruence|]. unfold group_active in H. rewrite Hi, andb_false_r in H. discriminate. }
+      destruct (group_exit_joins_all_step s o g R Hl0 Hl) as [Htasks _]. fold s' in Htasks.
+      destruct Hflip as [[t [-> Hi]]|[t [h [w [-> [Hin [Hh Hax]]]]]]].
+      * exfalso. destruct (okop_gexit s t g Ho) as [Hr [Ha [Hh Hc]]].
+        pose proof (group_exit_result s t g Ha Hh Hc (Bg g)) as [GL _].
+        unfold s' in Hl. rewrite (step_group_exit s t g Hi) in Hl. congruence.
+      * destruct (d_ax s D t g w Hax) as [Hr [_ [He _]]].
+        pose proof (ax_facts_of s t g w R D Hax) as AF.
+        assert (W : exists fo, wake_ok (pop s h) t fo /\ s' = fst (resume (pop s h) t fo)).
+        { destruct Hh as [->|[f ->]].
+          - exists None. split; [apply (wake_ok_step s t (reach_inv s R) Hin)|]. unfold s'. now rewrite (step_run_in s _ Hin).
+          - exists (Some f). split; [apply (wake_ok_wake s t f (reach_inv s R) Hin)|]. unfold s'. now rewrite (step_run_in s _ Hin). }
+        destruct W as [fo [W Es']].
+        pose proof (resume_aexit_result (pop s h) t fo g w W Hax AF) as Res. rewrite <- Es' in Res.
+        change (groups (pop s h)) with (groups s) in Res.
+        destruct Res as [[Hina _]|[GL _]]; [|exfalso; change (groups (pop s h) g) with (groups s g) in GL; congruence].
+        refine (conj (RS g Hr) (conj (Em He) (conj _ Htasks))). rewrite Es. exact Hina.
+  - (* d_ax *)
+    intros t g w Hax'.
+    assert (Hal' : alloc s' t) by (apply (alloc_of_in_aexit s' t g w (reach_step s o R) Hax')).
+    (* transport for a task that does not act in this step *)
+    assert (Keep : t <> acting o -> in_aexit s t g w /\
+              real s' g /\ g_left (groups s' g) = false /\ g_entered (groups s' g) = true /\
+              s_active (scopes s' (g_scope (groups s' g))) = true /\ s_host (scopes s' (g_scope (groups s' g))) = Some t /\
+              s_parent (scopes s' w) = Some (g_scope (groups s' g)) /\ w <> g_scope (groups s' g)).
+    { intros Hna. destruct (SFt t Hna) as [Sl Sg].
+      destruct (Nat.lt_ge_cases t (ntask s)) as [Hlt|Hge].
+      - destruct (Sl Hlt) as [_ Ec]. assert (Hax : in_aexit s t g w) by (destruct Hax' as [exc H]; exists exc; now rewrite <- Ec).
+        split; [exact Hax|].
+        destruct (d_ax s D t g w Hax) as [Hr [Hl [He [Ha [Hh [Hp Hne]]]]]].
+        destruct (ax_facts_of s t g w R D Hax) as [_ [_ [_ [_ [Hlt' [O1 [O2 [O3 O4]]]]]]]].
+        destruct (GN g) as [[E _]|[Es [Em [_ [_ [Ef _]]]]]]; [destruct (real_galloc s g D Hr); lia|].
+        rewrite Es.
+        destruct (SFs _ Hlt') as [_ SFa]. destruct (SFa Ha) as [G1 [G2 _]]; [rewrite Hh; congruence|].
+        destruct (SFs _ O4) as [_ SFw]. destruct (SFw O1) as [_ [_ W3]]; [rewrite O2; congruence|].
+        rewrite G1, G2, W3. refine (conj (RS g Hr) (conj _ (conj (Em He) (conj Ha (conj Hh (conj Hp Hne)))))).
+        destruct (g_left (groups s' g)) eqn:Hl'; [|reflexivity]. exfalso.
+        destruct (Ef eq_refl) as [H|[[t' [-> Hi]]|[t' [h [w' [-> [Hin [Hh' Hax2]]]]]]]]; [congruence| |].
+        + destruct (okop_gexit s t' g Ho) as [_ [_ [Hh2 _]]]. assert (t' = t) by congruence. subst t'.
+          unfold idle in Hi. destruct Hax as [exc [H|H]]; rewrite H in Hi; discriminate.
+        + destruct (d_ax s D t' g w' Hax2) as [_ [_ [_ [_ [Hh2 _]]]]]. assert (t' = t) by congruence. subst t'.
+          apply Hna. destruct Hh' as [->|[f ->]]; reflexivity.
+      - exfalso. assert (Hna0 : ~ alloc s t) by (unfold alloc; lia).
+        destruct (c_unalloc s (m_c s M) t Hna0) as [Ec _].
+        assert (N : newctl (k_ctl (tasks s' t))) by (apply Sg; [exact Hge|left; exact Ec]).
+        destruct Hax' as [exc [H|H]]; rewrite H in N; destruct N as [N|[N|N]]; discriminate. }
+    destruct (Nat.eq_dec t (acting o)) as [Hact|Hna]; [|apply Keep, Hna].
+    (* the acting task *)
+    unfold acting in Hact. destruct (actor o) as [ta|] eqn:Ea.
+    + subst ta. destruct (idle s t) eqn:Ei.
+      * assert (Es' : s' = fst (match o with AFinish _ v => puppet_finish s t v | _ => puppet_op s t o end)).
+        { unfold s', step. now rewrite Ea, Ei. }
+        assert (Hidle : naex (k_ctl (tasks s t))).
+        { unfold idle in Ei. destruct (k_ctl (tasks s t)); try discriminate. apply naex_idle. }
+        destruct o; try (exfalso; rewrite Es' in Hax'; apply (in_aexit_naex _ t g w Hax');
+          apply puppet_ctl_naex; [intros ?; discriminate|intros ? ? ?; discriminate|exact Hidle]).
+        -- (* AGroupExit *) cbn in Ea. injection Ea as ->.
+           destruct (okop_gexit s t g0 Ho) as [Hr [Ha [Hh Hc]]].
+           pose proof (group_exit_result s t g0 Ha Hh Hc (Bg g0)) as [GL [w' [Hax2 [A2 [H2 [P2 N2]]]]]].
+           rewrite <- Es' in GL, Hax2, A2, H2, P2.
+           assert (Egw : g = g0 /\ w = w').
+           { destruct Hax' as [e1 [H1|H1]]; destruct Hax2 as [e2 [H3|H3]]; rewrite H1 in H3; first [discriminate|injection H3; auto]. }
+           destruct Egw as [-> ->].
+           assert (Hl0 : g_left (groups s g0) = false).
+           { destruct (g_left (groups s g0)) eqn:E; [|reflexivity]. destruct (d_left s D g0 E) as [_ [_ [Hi _]]]. congruence. }
+           rewrite (RK g0 Hr).
+           destruct (GN g0) as [[E _]|[_ [Em _]]]; [destruct (real_galloc s g0 D Hr); lia|].
+           refine (conj (RS g0 Hr) (conj _ (conj (Em (d_ent s D g0 Hr Ha)) (conj A2 (conj H2 (conj P2 N2)))))). congruence.
+        -- (* AFinish *) exfalso.
+           assert (Hc : k_ctl (tasks s' t) = CDone).
+           { rewrite Es'. unfold puppet_finish.
+             destruct (k_group _); [destruct (scope_exit _ _ _ _) as [s4 x]; destruct x|]; cbn [fst]; apply ctl_finish_task. }
+           destruct Hax' as [exc [H|H]]; congruence.
+      * (* rejected *) assert (Es' : s' = s) by (unfold s', step; now rewrite Ea, Ei). rewrite Es' in *. apply (d_ax s D t g w Hax').
+    + destruct o; try (exfalso; subst t; destruct Hal'; lia).
+      destruct h as [t0|t0 f| | | |]; try (exfalso; subst t; destruct Hal'; lia); subst t0.
+      * (* HStep *)
+        destruct (in_dec_handle (HStep t) (ready s)) as [Hin|Hnin].
+        2:{ assert (Es' : s' = s) by (unfold s'; now rewrite (step_run_notin s _ Hnin)). rewrite Es' in *. apply (d_ax s D t g w Hax'). }
+        pose proof (wake_ok_step s t (reach_inv s R) Hin) as W.
+        assert (Es' : s' = fst (resume (pop s (HStep t)) t None)) by (unfold s'; now rewrite (step_run_in s _ Hin)).
+        rewrite Es' in Hax'.
+        destruct (resumed_ax s t None g w (pop s (HStep t)) R D W eq_refl eq_refl eq_refl eq_refl Hax') as [[w0 Hax] [L2 [A2 [H2 [P2 N2]]]]].
+        rewrite <- Es' in L2, A2, H2, P2. destruct (d_ax s D t g w0 Hax) as [Hr [_ [He _]]]. rewrite (RK g Hr).
+        destruct (GN g) as [[E _]|[_ [Em _]]]; [destruct (real_galloc s g D Hr); lia|].
+        exact (conj (RS g Hr) (conj L2 (conj (Em He) (conj A2 (conj H2 (conj P2 N2)))))).
+      * destruct (in_dec_handle (HWake t f) (ready s)) as [Hin|Hnin].
+        2:{ assert (Es' : s' = s) by (unfold s'; now rewrite (step_run_notin s _ Hnin)). rewrite Es' in *. apply (d_ax s D t g w Hax'). }
+        pose proof (wake_ok_wake s t f (reach_inv s R) Hin) as W.
+        assert (Es' : s' = fst (resume (pop s (HWake t f)) t (Some f))) by (unfold s'; now rewrite (step_run_in s _ Hin)).
+        rewrite Es' in Hax'.
+        destruct (resumed_ax s t (Some f) g w (pop s (HWake t f)) R D W eq_refl eq_refl eq_refl eq_refl Hax') as [[w0 Hax] [L2 [A2 [H2 [P2 N2]]]]].
+        rewrite <- Es' in L2, A2, H2, P2. destruct (d_ax s D t g w0 Hax) as [Hr [_ [He _]]]. rewrite (RK g Hr).
+        destruct (GN g) as [[E _]|[_ [Em _]]]; [destruct (real_galloc s g D Hr); lia|].
+        exact (conj (RS g Hr) (conj L2 (conj (Em He) (conj A2 (conj H2 (conj P2 N2)))))).
+      * (* HTaskDone t: a done task *)
+        destruct (in_dec_handle (HTaskDone t) (ready s)) as [Hin|Hnin].
+        -- exfalso. destruct (k_td s (m_k s M) t Hin) as [Hd [_ [_ Hal]]].
+           destruct TS as [_ TS2]. destruct (TS2 t (proj2 Hal)) as [_ [_ [_ [_ [Td _]]]]].
+           destruct (k_done (tasks s t)) as [d|] eqn:Ed; [|contradiction].
+           assert (Hd' : k_done (tasks s' t) <> None) by (rewrite (Td d eq_refl); discriminate).
+           pose proof (c_done1 s' (m_c s' M') t Hd') as Hc1.
+           destruct Hax' as [exc [H|H]]; congruence.
+        -- assert (Es' : s' = s) by (unfold s'; now rewrite (step_run_notin s _ Hnin)). rewrite Es' in *.
+           apply (d_ax s D t g w Hax').
+Qed.
+
+Lemma dinv_init : DInv init.
+Proof.
+  constructor; cbn [init ngroup groups tasks scopes].
+  - lia.
+  - intros g _. cbn. auto.
+  - intros g g' H. exfalso. apply H. reflexivity.
+  - intros t g _ H. exfalso. apply H. reflexivity.
+  - intros g H. discriminate.
+  - intros g H. exfalso. apply H. reflexivity.
+  - intros g H. discriminate.
+  - intros t g w [exc [H|H]]; discriminate.
+Qed.
+
+Theorem dreach_dinv s : dreach s -> DInv s.
+Proof.
+  apply (dreach_ind DInv); [exact dinv_init|].
+  intros s0 o D0 I0 Ho. apply dinv_step; auto. apply dreach_reach, D0.
+Qed.
+
+(* ------------------------------------------------------------------------------------------------ *)
+(* C01, state form, for disciplined op sequences *)
+Theorem group_exit_joins_all s g : dreach s -> g_left (groups s g) = true ->
+  g_tasks (groups s g) = [] /\
+  forall t, In t (g_ever (groups s g)) -> k_done (tasks s t) <> None /\ k_tdran (tasks s t) = true.
+Proof.
+  intros D Hl. destruct (d_left s (dreach_dinv s D) g Hl) as [_ [_ [_ Ht]]].
+  split; [exact Ht|]. apply empty_group_all_joined; [apply dreach_reach, D|exact Ht].
+Qed.
+
+Theorem left_group_is_inactive s g : dreach s -> g_left (groups s g) = true -> group_active s g = false.
+Proof.
+  intros D Hl. destruct (d_left s (dreach_dinv s D) g Hl) as [_ [_ [Hi _]]].
+  unfold group_active. rewrite Hi. apply andb_false_r.
+Qed.
+
+Theorem no_spawn_after_left s o g : dreach s -> g_left (groups s g) = true -> okop s o = true ->
+  g_ever (groups (fst (step s o)) g) = g_ever (groups s g) /\ g_left (groups (fst (step s o)) g) = true.
+Proof.
+  intros D Hl Ho. pose proof (dreach_reach s D) as R. pose proof (dreach_dinv s D) as DI. split.
+  - destruct (list_eq_dec Nat.eq_dec (g_ever (groups (fst (step s o)) g)) (g_ever (groups s g))) as [E|Hne]; [exact E|].
+    exfalso. destruct (group_members_grow_only_by_spawn s o g R Hne) as [[t [_ [_ [Ha _]]]]|[t [_ Hg]]].
+    + rewrite (left_group_is_inactive s g D Hl) in Ha. discriminate.
+    + destruct (d_left s DI g Hl) as [Hr _]. destruct (real_galloc s g DI Hr). lia.
+  - destruct (gc_norm s o g R) as [[Hg _]|[_ [_ [_ [Hm _]]]]]; [|apply Hm, Hl].
+    destruct (d_left s DI g Hl) as [Hr _]. destruct (real_galloc s g DI Hr). lia.
+Qed.
+
+(* ---------------- non-vacuity: a rich disciplined history ---------------- *)
+(* roots 1 and 2; 1 opens group 1 and spawns child 3; child 3 opens the nested group 2 and start()s child 4, which
+   calls started(9); the outsider 2 spawns child 5 into group 1 and then cancels group 1's scope; everything
+   unwinds: 4 and 5 finish cancelled, 3 leaves group 2 and finishes, 1 leaves group 1 *)
+Definition ops_rich : list op :=
+  [ANewRoot; ANewRoot; AGroupNew 1; AGroupEnter 1 1; ASpawn 1 1; ARun (HStep 3); AGroupNew 3; AGroupEnter 3 2;
+   AStart 3 2; ARun (HStep 4); AStarted 4 9; ARun (HWake 3 9); ASpawn 2 1; ARun (HStep 5); ACancel 2 1;
+   ARun (HWake 4 11); AFinish 4 0; ARun (HTaskDone 4); ARun (HWake 5 14); AFinish 5 0; ARun (HTaskDone 5);
+   ARun (HWake 3 12); AGroupExit 3 2; ARun (HStep 3); AFinish 3 0; ARun (HTaskDone 3);
+   ARun (HWake 1 5); AGroupExit 1 1; ARun (HStep 1)].
+
+Example ex_rich_disciplined :
+  disciplined ops_rich = true /\
+  let s := final step init ops_rich in
+  g_left (groups s 1) = true /\ g_left (groups s 2) = true /\
+  g_ever (groups s 1) = [3; 5] /\ g_ever (groups s 2) = [4] /\
+  nth 11 (snd (run_ops step init ops_rich)) RNone = RRet 9.
+Proof. vm_compute. repeat split; reflexivity. Qed.
+
+Lemma dreach_final ops : disciplined ops = true -> dreach (final step init ops).
+Proof. intros H. exists ops. auto. Qed.
+
+Example ex_no_spawn_after_left_hyp :
+  let s := final step init ops_rich in
+  g_left (groups s 1) = true /\ okop s (ASpawn 2 1) = true /\ snd (step s (ASpawn 2 1)) = RExc ERuntime.
+Proof. vm_compute. auto. Qed.
+
+(* the misuse sequences of GroupThms7 are not disciplined *)
+Example ex_reenter_not_disciplined :
+  disciplined [ANewRoot; AGroupNew 1; AGroupEnter 1 1; AGroupExit 1 1; ARun (HStep 1); AEnter 1 1; ASpawn 1 1] = false.
+Proof. vm_compute. reflexivity. Qed.
+
+Example ex_foreign_exit_not_disciplined :
+  disciplined [ANewRoot; ANewRoot; AGroupNew 1; AGroupEnter 1 1; AGroupExit 2 1; ARun (HStep 2); ASpawn 1 1] = false.
+Proof. vm_compute. reflexivity. Qed.
+
+Example ex_double_exit_not_disciplined :
+  disciplined [ANewRoot; AGroupNew 1; AGroupEnter 1 1; AHold 1 7; AGroupExit 1 1; ARun (HStep 1);
+               AGroupExit 1 1; ARun (HStep 1)] = false.
+Proof. vm_compute. reflexivity. Qed.
+
+(* the same three theorems stated on op lists *)
+Theorem group_exit_joins_all_ops ops g : disciplined ops = true ->
+  g_left (groups (final step init ops) g) = true ->
+  g_tasks (groups (final step init ops) g) = [] /\
+  forall t, In t (g_ever (groups (final step init ops) g)) ->
+    k_done (tasks (final step init ops) t) <> None /\ k_tdran (tasks (final step init ops) t) = true.
+Proof. intros H. apply group_exit_joins_all, dreach_final, H. Qed.
+
+Theorem no_spawn_after_left_ops ops o g : disciplined ops = true ->
+  g_left (groups (final step init ops) g) = true -> okop (final step init ops) o = true ->
+  g_ever (groups (fst (step (final step init ops) o)) g) = g_ever (groups (final step init ops) g) /\
+  g_left (groups (fst (step (final step init ops) o)) g) = true.
+Proof. intros H. apply no_spawn_after_left, dreach_final, H. Qed.
+
+Theorem left_group_is_inactive_ops ops g : disciplined ops = true ->
+  g_left (groups (final step init ops) g) = true -> group_active (final step init ops) g = false.
+Proof. intros H. apply left_group_is_inactive, dreach_final, H. Qed.
+
+(* a task's control state and current scope change only in steps in which that task acts (its own puppet op, the
+   resumption by one of its handles, or its task_done callback); in particular a caller of start() leaves
+   CStartJoin only by being resumed *)
+Theorem ctl_changes_only_when_acting s o t : t < ntask s -> t <> acting o ->
+  k_ctl (tasks (fst (step s o)) t) = k_ctl (tasks s t) /\ k_cur (tasks (fst (step s o)) t) = k_cur (tasks s t).
+Proof.
+  intros Ht Hne. destruct (step_scope_frame s o) as [_ [_ [_ SFt]]]. destruct (SFt t Hne) as [Sl _].
+  destruct (Sl Ht) as [E1 E2]. auto.
+Qed.
+
+Example ex_ctl_frame :
+  let s := final step init [ANewRoot; AGroupNew 1; AGroupEnter 1 1; AStart 1 1; ANativeCancel 1; ARun (HWake 1 4)] in
+  (exists sc e wf, k_ctl (tasks s 1) = CStartJoin 2 sc e wf) /\ 1 < ntask s /\ 1 <> acting (ARun (HStep 2)).
+Proof. vm_compute. split; [eauto|split; [lia|discriminate]]. Qed.
+
+(* ------------------------------------------------------------------------------------------------ *)
+(* Clauses that are only partially covered *)
+
+(* C02: uniqueness of source tags.  Proved for every op sequence: the member tags (t <> 0) are unique.
+   MISSING: uniqueness of the body tag 0 under the discipline (at most one AGroupExit with a held exception per
+   group).  Without the discipline it is false: GroupThms7.body_tag_not_unique_under_double_exit. *)
+Theorem group_excs_nodup_tags_partial s g : reach s ->
+  NoDup (filter (fun x => negb (Nat.eqb x 0)) (map fst (g_excs (groups s g)))).
+Proof. intros R. apply (group_excs_exactly_member_errors s g R). Qed.
+
+(* C07: "the start future gets the value v only by AStarted v of the child".  Proved: AStarted c v on the pending
+   start future stores v (GroupThms6.started_sets_value); the future is referenced by nothing else that completes
+   futures (GroupThms6.start_future_exclusive: not an event waiter, not an on_completed future, not a sleep future,
+   start future of exactly one child).  MISSING: the step-level statement "f_st changes from FPend to FRes v in a
+   step only if o = AStarted c v" (needs one more frame walk over futs, like GroupThms2 for groups). *)
+Theorem start_value_origin_partial s c f : reach s -> k_startfut (tasks s c) = Some f ->
+  (forall e, ~ In f (e_waiters (events s e))) /\ (forall g, g_fut (groups s g) <> Some f) /\ ~ sleepref s f /\
+  (forall c', k_startfut (tasks s c') = Some f -> c' = c).
+Proof.
+  intros R H. destruct (GroupThms6.start_future_exclusive s c f R H) as [H1 [H2 [H3 [H4 _]]]]. auto.
+Qed.
+
+(* C07: "start() re-raises only after the child has terminated".  Proved: the interrupted caller cancels the
+   child's handle scope and moves to CStartJoin (start_cancel_joins_child); it stays there until one of its own
+   handles is run (ctl_changes_only_when_acting); if the wake-up comes from the finished event, the child's
+   coroutine has ended (start_join_wakeup_means_child_finished).  MISSING: that under AnyIO cancellation only
+   (no ANativeCancel on the caller, no ACancel on the private join scope) the event is the only possible
+   wake-up: needs an invariant tying the join scope's shield to the deliveries that can reach the caller. *)
+Theorem start_join_partial s t ch c e f v : reach s ->
+  k_ctl (tasks s t) = CStartJoin ch c e (Some f) -> f_st (futs s f) = FRes v ->
+  k_final (tasks s ch) <> None.
+Proof. intros R H1 H2. apply (GroupThms6.start_join_wakeup_means_child_finished s t ch c e f v R H1 H2). Qed.
